@@ -10,7 +10,7 @@ from common import driver, proof_stage
 import subgen
 from c15 import run_calls, stats
 
-MODULES = ["CobyqaVerif.Props.C16", "CobyqaVerif.Props.C15Loop", "CobyqaVerif.Props.C15Improve", "CobyqaVerif.Props.C16Cauchy", "CobyqaVerif.Props.C16CauchyDir", "CobyqaVerif.Props.C16Spider"]
+MODULES = ["CobyqaVerif.Props.C16", "CobyqaVerif.Props.C15Loop", "CobyqaVerif.Props.C15Improve", "CobyqaVerif.Props.C16Cauchy", "CobyqaVerif.Props.C16CauchyDir", "CobyqaVerif.Props.C16Spider", "CobyqaVerif.Props.C16Ntcg"]
 LEVEL = "proof"
 OWN = ("model-increased", "violation-increased", "magnitude-decreased")
 EPS = subgen.EPS
@@ -215,6 +215,52 @@ def cauchy_full_correspondence(rng, n_gen):
     return {"cases": len(cases), "cases_that_enter_the_rescaling_loop": looped, "agree": agree, "mismatches": len(mism)}, mism
 
 
+def ntcg_correspondence(rng, n_gen, nmax=3):
+    """Tie of lean/CobyqaVerif/Alg/Ntcg.lean (the loop the theorems of Props/C16Ntcg.lean are about) to the code: the model
+    is run in exact rational arithmetic (DriverAlg `ntcg`, projection by exact Gram-Schmidt in the space of variables and
+    slacks, checked) on the inputs given to the real normal_byrd_omojokun with improve_tcg=False; the two steps must agree
+    to 1e-6 relative.  Inputs with an all-zero inequality row are left out (see c15.ctcg_correspondence)."""
+    import warnings
+    import exact
+    import cobyqa.subsolvers as S
+    from c15 import _stream_driver
+    cases = [c for c in (subgen.gen(rng, "normal") for _ in range(n_gen)) if c["n"] <= nmax]
+    n_zero = sum(1 for c in cases if any(not np.any(r) for r in c["aub"]))
+    cases = [c for c in cases if not any(not np.any(r) for r in c["aub"])]
+
+    def rl(v):
+        return " ".join(exact.rs(Fr(float(x))) for x in np.asarray(v, float).ravel())
+
+    def ol(v):
+        return " ".join("none" if not np.isfinite(x) else exact.rs(Fr(float(x))) for x in v)
+
+    def line(c):
+        n = c["n"]
+        xl, xu = np.minimum(c["xl"], 0.0), np.maximum(c["xu"], 0.0)
+        return (f"ntcg {n} {len(c['bub'])} {c['aeq'].shape[0]} {4 * (n + len(c['bub'])) + 12} | {ol(xl)} ; {ol(xu)} ; {rl(c['aub'])} ; {rl(c['bub'])} ; "
+                f"{rl(c['aeq'])} ; {rl(c['beq'])} ; {exact.rs(Fr(float(c['delta'])))}")
+    ans = _stream_driver([line(c) for c in cases], 12)
+    agree, skipped, mism = 0, 0, []
+    for c, a in zip(cases, ans):
+        if a is None:
+            skipped += 1
+            continue
+        with warnings.catch_warnings(), np.errstate(all="ignore"):
+            warnings.simplefilter("ignore")
+            s = S.normal_byrd_omojokun(c["aub"].copy(), c["bub"].copy(), c["aeq"].copy(), c["beq"].copy(), c["xl"].copy(), c["xu"].copy(), c["delta"], False, improve_tcg=False)
+        if not a.startswith("ok"):
+            mism.append((c, "driver answered " + a[:40]))
+            continue
+        mdl = np.array([float(Fr(t)) for t in a.split()[1:]])
+        sc = max(float(np.linalg.norm(s)), float(np.linalg.norm(mdl)), 1e-300)
+        if float(np.linalg.norm(mdl - s)) <= 1e-6 * sc:
+            agree += 1
+        else:
+            mism.append((c, f"exact model step {mdl.tolist()} vs implementation {np.asarray(s).tolist()}"))
+    return {"cases": len(cases), "agree": agree, "skipped_too_expensive": skipped, "mismatches": len(mism),
+            "origin_infeasible": sum(1 for c in cases if np.any(c["bub"] < 0) or np.any(c["beq"] != 0)), "left_out_because_of_an_all_zero_row": n_zero}, mism
+
+
 def spider_correspondence(rng, n_gen):
     """Tie of lean/CobyqaVerif/Alg/Spider.lean (the whole of spider_geometry) to the code: the model, run in exact rational
     arithmetic on the same data, lines and (rounded-up) norms, must return the step of the real spider_geometry; when two
@@ -318,7 +364,9 @@ def run(chk, rng, replay=None):
     chk.coverage["spider_geometry_model_correspondence"] = sstat
     fstat, fmism = cauchy_full_correspondence(rng, 200 if chk.tier == "quick" else 4000) if replay is None else ({}, [])
     chk.coverage["whole_cauchy_geometry_correspondence_rescaling_loop_included"] = fstat
-    cmism = cmism + smism + fmism
+    nstat, nmism = (ntcg_correspondence(rng, 120, nmax=3) if chk.tier == "quick" else ntcg_correspondence(rng, 2500, nmax=4)) if replay is None else ({}, [])
+    chk.coverage["normal_solver_loop_model_correspondence"] = nstat
+    cmism = cmism + smism + fmism + nmism
     chk.assumptions += ["kernel theorems are exact-arithmetic; the loops of the solvers are covered by the sampled calls only",
                         "the projected-gradient Cauchy reference is computed by the harness (exact rational model values, step shortened by 1e-9 to stay feasible)"]
     reported = 0
@@ -332,7 +380,7 @@ def run(chk, rng, replay=None):
         reported += len(chk.violations) - before
     if not fails and cmism:
         c, what = cmism[0]
-        chk.violation({"property": "C16", "kind": "proof-or-correspondence-broken", "correspondence": "Alg/Cauchy.lean / Alg/Spider.lean (exact) vs cauchy_geometry / spider_geometry",
+        chk.violation({"property": "C16", "kind": "proof-or-correspondence-broken", "correspondence": "Alg/Cauchy.lean, Alg/CauchyDir.lean, Alg/Spider.lean, Alg/Ntcg.lean (exact) vs cauchy_geometry / spider_geometry / normal_byrd_omojokun(improve_tcg=False)",
                        "case": subgen.case_json(c), "difference": what, "mismatches": len(cmism)}, no_input=True)
     if not fails and not ok:
         chk.violation({"property": "C16", "kind": "proof-or-correspondence-broken", "broken": info.get("problems")}, no_input=True)
